@@ -225,8 +225,10 @@ def run(cx):
         gu = gm.calls_to(f"{AB}::client::generate_unary")
         ob.floor(gu, 1, "generate_unary call", exact=True)
         pt = go.of_operand(gu[0].args[1])
-        ob.require(term_has_call(pt, "fmt::Arguments::new") and len([x for x in walk(pt) if x[0] == "call" and name_matches(x[1], "fmt::Arguments::new")]) == 1, "client/path-arg",
-                   f"generate_unary path argument: {show(pt)[:80]}", gm.path)
+        # the argument IS the route string: the outermost format! in it is the route format decoded above (nested format!s are
+        # its hoisted parts)
+        fa_ = [x for x in walk(pt) if x[0] == "call" and name_matches(x[1], "fmt::Arguments::new")]
+        ob.require(bool(fa_) and fa_[0][3] == c1.bb, "client/path-arg", f"generate_unary path argument: {show(pt)[:80]}", gm.path)
         mt = go.of_operand(gu[0].args[0])
         ob.require(term_has_call(mt, "Iterator::next") and term_has_call(mt, f"{AB}::manual::Service::methods"), "client/method-arg", f"generate_unary method argument: {show(mt)[:80]}", gm.path)
         ub = cx.body(f"{AB}::client::generate_unary")
@@ -254,7 +256,8 @@ def run(cx):
         ob.require(ok, "server/arm-shape", f"server arm template: `{Q.render(toks)[:160]}`", gr.path)
         if ok:
             lt = toks[lit[0]].term
-            ob.require(len([x for x in walk(lt) if x[0] == "call" and name_matches(x[1], "fmt::Arguments::new")]) == 1, "server/literal-is-route", f"arm pattern literal: {show(lt)[:80]}", gr.path)
+            fa_ = [x for x in walk(lt) if x[0] == "call" and name_matches(x[1], "fmt::Arguments::new")]
+            ob.require(bool(fa_) and fa_[0][3] == c2.bb, "server/literal-is-route", f"arm pattern literal: {show(lt)[:80]}", gr.path)
             arm_m = [x for x in walk(toks[lit[0] + 3].term) if x[0] == "call" and name_matches(x[1], f"{AB}::server::generate_method_route")][0][2][0]
             ob.require(term_has_call(arm_m, "Iterator::next") and term_has_call(arm_m, f"{AB}::manual::Service::methods"), "server/arm-method", f"arm body generated for {show(arm_m)[:60]}", gr.path)
         # server::generate: match req.route() { #method_routes _ => NotFound }
